@@ -520,6 +520,8 @@ class Repo:
             return UNKNOWN
         if isinstance(node, ast.Attribute) and node.attr in ("size", "format") and isinstance(node.value, (ast.Name, ast.Attribute)):
             fmt = self._struct_format_of(node.value, mod, cls)
+            if fmt is None and isinstance(node.value, ast.Attribute) and isinstance(node.value.value, ast.Name) and node.value.value.id in self.classes:
+                fmt = self._struct_format_of(node.value, mod, self.classes[node.value.value.id])
             if fmt is not None:
                 return struct.calcsize(fmt) if node.attr == "size" else fmt
         if isinstance(node, ast.Attribute):
@@ -668,9 +670,17 @@ class Repo:
             meth, e = e.attr, e.value
         name = None
         if isinstance(e, ast.Name):
+            al = self.local_alias(e.id, fi)
+            if isinstance(al, (ast.Attribute, ast.Name)) and unparse(al) != e.id:
+                e = al  # hoisted into a local
+        if isinstance(e, ast.Name):
             name = e.id
         elif isinstance(e, ast.Attribute) and unparse(e.value) in ("self", "cls", "self.__class__"):
             name = e.attr
+        elif isinstance(e, ast.Attribute) and isinstance(e.value, ast.Name) and e.value.id in self.classes:
+            f0 = self._struct_format_of(e, fi.module, self.classes[e.value.id])
+            if f0 is not None:
+                return (f0, meth) if meth else None
         if name is None:
             return None
         fmt, m2 = lookup(name)
